@@ -98,7 +98,7 @@ func build(u Unit, scratch string) string {
 	}
 	args = append(args, modfileArgs(scratch)...)
 	args = append(args, "-o", out, u.Pkg)
-	cmd := exec.Command("go", args...)
+	cmd := exec.Command("/opt/veriftools/go1.26.8/bin/go", args...)
 	cmd.Dir = root
 	cmd.Env = goEnv()
 	var buf bytes.Buffer
@@ -377,25 +377,25 @@ func check(prop, tier string) int {
 	}
 	dn := len(fps)
 	cov := map[string]any{
-		"evaluations":         runs,
-		"distinct_nontrivial": dn,
-		"rule":                pd.Rule,
-		"samples":             samples,
-		"nontrivial_runs":     nontriv,
-		"events":              events,
-		"tape_values_drawn":   tapeVals,
-		"runs_per_hour":       int(float64(runs) / wall * 3600),
-		"simulated_time_s":    float64(simNs) / 1e9,
-		"faults_fired":        faults,
-		"probes":              probes,
-		"probes_never_reached": zero,
+		"evaluations":              runs,
+		"distinct_nontrivial":      dn,
+		"rule":                     pd.Rule,
+		"samples":                  samples,
+		"nontrivial_runs":          nontriv,
+		"events":                   events,
+		"tape_values_drawn":        tapeVals,
+		"runs_per_hour":            int(float64(runs) / wall * 3600),
+		"simulated_time_s":         float64(simNs) / 1e9,
+		"faults_fired":             faults,
+		"probes":                   probes,
+		"probes_never_reached":     zero,
 		"distinct_abstract_states": len(states),
-		"units":               perUnit,
-		"real_vs_stub":        pd.RealStub,
-		"findings":            vlist,
-		"known_findings_seen": knownSeen,
-		"workers":             workers,
-		"budget_s":            budget,
+		"units":                    perUnit,
+		"real_vs_stub":             pd.RealStub,
+		"findings":                 vlist,
+		"known_findings_seen":      knownSeen,
+		"workers":                  workers,
+		"budget_s":                 budget,
 	}
 	ev := map[string]any{
 		"property_id": prop, "tier": tier, "seed": seed, "level": pd.Level,
